@@ -99,7 +99,7 @@ class Gen(object):
         """A multi-board machine for a real run of discover_connections(): every Ethernet chip gets a status;
         -> (description for the driver, the controller state that must result)"""
         r = self.rng
-        w, h = r.choice([(12, 12), (12, 12), (24, 12), (12, 24), (24, 24), (8, 8)])
+        w, h = r.choice([(12, 12), (24, 12), (24, 12), (12, 24), (24, 24), (8, 8)])
         root = r.choice([(0, 0), (0, 0), (0, 0), (8, 4), (4, 8)]) if (w, h) != (8, 8) else (0, 0)
         eths = sorted((x, y) for x in range(w) for y in range(h)
                       if ((x - root[0]) % 12, (y - root[1]) % 12) in ((0, 0), (4, 8), (8, 4)))
@@ -114,13 +114,30 @@ class Gen(object):
         desc = dict(w=w, h=h, root=list(root), eth=eth, dead=dead)
         # the connections that are known afterwards: discovered AND kept (the probe over them succeeded)
         conns = [[xy, i + 1] for i, (xy, st) in enumerate(eth) if st == "ok"]
+        desc2 = None
+        if (w, h) != (8, 8) and r.random() < 0.45:
+            # the machine changes -- mostly it shrinks -- and is discovered a second time by the same controller;
+            # connections made the first time are retained, the dimensions are those of the machine as it is now
+            sizes = [(12, 12), (24, 12), (12, 24), (24, 24)]
+            smaller = [z for z in sizes if z[0] <= w and z[1] <= h and z != (w, h)]
+            w2, h2 = r.choice(smaller) if smaller and r.random() < 0.7 else r.choice(sizes)
+            eths2 = sorted((x, y) for x in range(w2) for y in range(h2)
+                           if ((x - root[0]) % 12, (y - root[1]) % 12) in ((0, 0), (4, 8), (8, 4)))
+            have = set(tuple(xy) for xy, _ in conns)
+            eth2 = [[list(xy), "ok" if xy in have or xy == root else
+                     r.choice(["ok", "ok", "probe-fails", "eth-down", "info-fails"])] for xy in eths2]
+            desc2 = dict(w=w2, h=h2, root=list(root), eth=eth2, dead=[], id_base=100)
+            conns = conns + [[xy, 101 + i] for i, (xy, st) in enumerate(eth2) if st == "ok" and tuple(xy) not in have]
+            w, h, eth = w2, h2, eth2
         ctl = dict(width=w, height=h, root=list(root), conns=conns, bmp=[])
         targets = []
         for xy, st in eth:
-            for dx, dy in ((0, 0), (0, 0), (1, 0), (0, 1), (1, 1), (-1, 0), (0, -1), (4, 3), (7, 7)):
+            # the Ethernet chip, its neighbours, and chips of its board that lie across the torus edge
+            for dx, dy in ((0, 0), (0, 0), (1, 0), (0, 1), (1, 1), (-1, 0), (0, -1), (4, 3), (7, 7), (7, 3), (4, 7),
+                           (6, 2), (4, 0), (0, 3)):
                 t = ((xy[0] + dx) % w, (xy[1] + dy) % h)
                 targets.append(t)
-        return desc, ctl, targets
+        return desc, desc2, ctl, targets
 
     def aim(self, pos, kw, names):
         """address the call to one of the chips of interest (Ethernet chips and their neighbours)"""
@@ -156,7 +173,8 @@ class Gen(object):
         if name == "board":
             if method in ("set_power", "set_led") and r.random() < 0.2:
                 # these two accept a sequence of boards (oracle only: the model's values are scalars)
-                return {"seq": r.sample(range(6), r.randint(1, 3))}
+                return {"seq": r.sample(range(6), r.randint(1, 3)),
+                        "kind": r.choice(["list", "tuple", "set", "generator", "iter", "reversed", "map", "dict-keys"])}
             return r.choice([0, 1, 2, 3, 3, 5])
         if name == "link":
             return r.randrange(6)
@@ -246,6 +264,16 @@ class Gen(object):
         for _ in range(n):
             if not methods:
                 break
+            if cls == "BMP" and r.random() < 0.04:
+                # a collection of boards supplied by a context block to one set_led / set_power call
+                m = r.choice(["set_led", "set_power"])
+                seq = {"seq": r.sample(range(6), r.randint(1, 3)),
+                       "kind": r.choice(["list", "tuple", "generator", "iter", "reversed", "map"])}
+                first = self.value(cls, m, "led" if m == "set_led" else "state", ctl)
+                ckw = [["cabinet", self.value(cls, m, "cabinet", ctl)], ["frame", self.value(cls, m, "frame", ctl)]]
+                ops.append(["with", [["board", seq]], [["call", m, [first], ckw, False]], None])
+                self.shapes.append((m, ["boards-from-context"]))
+                continue
             u = r.random()
             if (u < 0.45 or depth >= 5) and not (active and depth < 5 and r.random() < 0.3):
                 m = methods.pop()
@@ -350,9 +378,9 @@ class Gen(object):
         self.shapes = []
         self.kept = {}
         self.targets = []
-        desc = None
+        desc = desc2 = None
         if cls == "MC" and r.random() < 0.3:
-            desc, ctl, self.targets = self.discovery()
+            desc, desc2, ctl, self.targets = self.discovery()
         else:
             ctl = self.ctl(cls)
             if cls == "MC" and ctl["conns"]:
@@ -375,6 +403,8 @@ class Gen(object):
         case = dict(cls=cls, init=init, ctl=ctl, ops=ops)
         if desc is not None:
             case["discover"] = desc
+            if desc2 is not None:
+                case["discover2"] = desc2
         return case, self.shapes
 
 
@@ -794,7 +824,10 @@ class Oracle(object):
             return
         cab, fr, bd = res["cabinet"], res["frame"], res["board"]
         boards = bd["seq"] if isinstance(bd, dict) and "seq" in bd else [bd]
+        unordered = isinstance(bd, dict) and bd.get("kind") == "set"
         bd = boards[0]
+        if unordered and len(trace) == 1 and trace[0][4] in boards:
+            bd = trace[0][4]          # a set has no first element: any of its boards may be addressed
         if not all(is_int(v) and not isinstance(v, bool) for v in [cab, fr] + boards):
             return
         look = 0 if m == "set_power" else bd
@@ -1056,10 +1089,14 @@ def run(chk, args):
             chk.count("class:" + c["cls"])
             chk.count("geometry:" + ("discovered" if c.get("discover") else "known" if c["ctl"]["width"] and c["ctl"]["height"] and c["ctl"]["root"]
                                      else "unknown") if c["cls"] == "MC" else "bmp-connections:%d" % len(c["ctl"]["bmp"]))
+            if c.get("discover2"):
+                chk.count("rediscovery:%dx%d->%dx%d" % (c["discover"]["w"], c["discover"]["h"],
+                                                       c["discover2"]["w"], c["discover2"]["h"]))
             if c.get("discover"):
                 chk.count("discovery:" + ",".join("%s=%d" % (k, sum(1 for _, st in c["discover"]["eth"] if st == k))
                                                   for k in ("ok", "probe-fails")))
-            chk.note_case(dict(cls=c["cls"], init=c["init"], ctl=c["ctl"], ops=c["ops"], discover=c.get("discover")),
+            chk.note_case(dict(cls=c["cls"], init=c["init"], ctl=c["ctl"], ops=c["ops"], discover=c.get("discover"),
+                               discover2=c.get("discover2")),
                           (ncalls >= 2 or c["ctl"] is EXH_CTL[c["cls"]])
                           and any(op[0] in ("with", "app") for op in c["ops"]))
             why = Oracle(sigs, info, c, o).decide(o)
